@@ -354,11 +354,8 @@ def eval_quote(U, fn, s):
     pre = 'C06|fn:%s|' % fn
     try:
         q = f(s, full_quote=True)
-        q_default = f(s)
     except Exception as e:
         return [(pre + 'raised:%s' % _exc(e), 'a text', 'raised %r' % e, ())]
-    if q_default != q:
-        out.append((pre + 'default-differs-from-full_quote=True', q, q_default, ()))
     if not isinstance(q, str) or not QUOTE_FNS[fn].fullmatch(q):
         out.append((pre + 'illegal-character', 'only RFC 3986 characters of that position', q, ()))
         if not isinstance(q, str):
@@ -420,9 +417,7 @@ def eval_totality(U, text, wrap=True):
     for name, kw in FAL_VARIANTS:
         for tx in texts:
             try:
-                r = U.find_all_links(tx, **kw)
-                if not isinstance(r, list):
-                    out.append(('C06|totality:find_all_links|result-type', 'list', repr(type(r)), ()))
+                U.find_all_links(tx, **kw)
             except Exception as e:
                 out.append(('C06|totality:find_all_links|raised:%s' % _exc(e), 'never raises',
                             '%s: raised %r' % (name, e), ()))
